@@ -321,7 +321,7 @@ def verify_one(h, meta, rundir, scale):
     cmd += ["--unwinding-assertions"]
     if h.get("cbmc"):
         cmd += h["cbmc"].split()
-    cmd += [g, "--json-ui"]
+    cmd += ["--verbosity", "9", g, "--json-ui"]  # verbosity 9: runtime / formula-size statistics
     res["cbmc_cmd"] = " ".join(cmd[:-2])
     out, rc, dt = run(cmd, lf, timeout, mem)
     lf.close()
@@ -351,12 +351,19 @@ def verify_one(h, meta, rundir, scale):
         if "result" in e:
             results = e["result"]
         mt = e.get("messageText", "")
-        if mt.startswith("Runtime Solver:") or mt.startswith("Runtime decision procedure:"):
-            try:
-                if mt.startswith("Runtime decision procedure:"):
-                    res["solver_s"] += float(mt.split(":")[1].strip().rstrip("s"))
-            except ValueError:
-                pass
+        try:
+            if mt.startswith("Runtime decision procedure:"):
+                res["solver_s"] += float(mt.split(":")[1].strip().rstrip("s"))
+            elif mt.startswith("Runtime Symex:"):
+                res["symex_s"] = res.get("symex_s", 0.0) + float(mt.split(":")[1].strip().rstrip("s"))
+            elif mt.endswith(" clauses") and " variables, " in mt:
+                v, c = mt.replace(" clauses", "").split(" variables, ")
+                res["sat_variables"] = max(res.get("sat_variables", 0), int(v))
+                res["sat_clauses"] = max(res.get("sat_clauses", 0), int(c))
+            elif mt.startswith("size of program expression:"):
+                res["ssa_steps"] = int(mt.split(":")[1].split()[0])
+        except ValueError:
+            pass
         if mt.startswith("Solving with"):
             res["sat_calls"] += 1
         if e.get("messageType") == "ERROR":
@@ -399,6 +406,7 @@ def verify_one(h, meta, rundir, scale):
         failed = [x for x in failed if x not in expected_hits]
         res["expected_panics"] = len(expected_hits)
     res["failed"] = failed
+    res["checks_ok"] = res["checks"] - len(failed) - len(unwind_fail) - len(unsupported) - len(expected_hits)
     if exp and not unwind_fail and not unsupported and not failed:
         if expected_hits:
             res["status"] = "ok"
@@ -732,12 +740,15 @@ def main():
     # ---- evidence
     ok = [r for r in results if r["status"] == "ok"]
     nontrivial = [r for r in results if r["reach"] is True and r["bits"] > 0]
+    decided_props = sum(r.get("checks_ok", 0) for r in nontrivial if r["status"] in ("ok", "known"))
     samples = []
     for r in results:
         samples.append(dict(harness=r["harness"], statement=r["desc"], functions_encoded=r["fns"].split(",") if r["fns"] else [],
                             bounds=r["bounds"], symbolic_input_bits=r["bits"], cbmc_checks=r["checks"],
                             status=r["status"], reach_cover_satisfied=r["reach"], wall_s=r["wall_s"],
-                            solver_s=r["solver_s"], source=f"{r['file']}:{r['line']}",
+                            solver_s=r["solver_s"], symex_s=round(r.get("symex_s", 0.0), 2), ssa_steps=r.get("ssa_steps"),
+                            sat_variables=r.get("sat_variables"), sat_clauses=r.get("sat_clauses"),
+                            properties_proved=r.get("checks_ok"), source=f"{r['file']}:{r['line']}",
                             **({"counterexample_hex": r["counterexample_hex"], "native": r["native"]}
                                if "counterexample_hex" in r else {}),
                             **({"reason": r["reason"]} if "reason" in r else {})))
@@ -751,11 +762,14 @@ def main():
         property_id=prop, tier=a.tier, seed=seed, level="model_checking",
         coverage=dict(
             evaluations=sum(max(1, r["sat_calls"]) for r in results),
-            distinct_nontrivial=len(nontrivial),
-            rule=("one case = one harness (bounded symbolic obligation) decided by CBMC/CaDiCaL over the GOTO program "
-                  "Kani compiled from /repo's working tree; evaluations counts SAT calls; a harness is non-trivial when "
-                  "its final reach cover is satisfiable and it quantifies over >0 symbolic input bits; distinct = "
-                  "distinct harness names"),
+            distinct_nontrivial=decided_props,
+            rule=("a case is one CBMC property - a harness assertion, a Rust-level panic/overflow/bounds assertion or an "
+                  "unwinding assertion in the GOTO program Kani compiled from /repo's working tree - decided by the SAT "
+                  "solver for ALL values of the harness's symbolic inputs; it is counted as non-trivial when it was proved "
+                  "(status SUCCESS), its harness quantifies over >0 symbolic input bits and the harness's final reach "
+                  "cover is satisfiable (the assertion is not vacuously true); distinct = distinct (harness, property id) "
+                  "pairs, counted from CBMC's result list; `obligations` counts harnesses, `evaluations` counts SAT calls"),
+            nontrivial_harnesses=len(nontrivial),
             samples=samples,
             obligations=len(results), discharged=len(ok),
             queries_inconclusive=len(inconclusive), known_findings=len(known_hits),
